@@ -22,7 +22,7 @@ RULE = (
     "Scalar(1,u,c) builds for every unit and category of its type and holds the category as registered now, as does the "
     "unit-only form ObtainQuantity(u), CheckCategoryUnit of every (category name, unit symbol) of the pools - registered "
     "or not yet - agrees with the model after every step; a rejected call leaves the full snapshot identical. "
-    "(c) static sweep of the three shipped databases with the same invariants. Unit symbols include two that merely contain a legacy fragment (lbmole(lab), 1000m3(st)). A second database in which the pool's names mean the opposite is asked before a third of the lookups; default values exactly on and a hair beside inclusive and exclusive limits are registered (exact comparison). Non-trivial = history with a rejection, "
+    "(c) static sweep of the three shipped databases with the same invariants. Unit symbols include two that merely contain a legacy fragment (lbmole(lab), 1000m3(st)). A second database in which the pool's names mean the opposite is asked before a third of the lookups; default values exactly on and a hair beside inclusive and exclusive limits are registered (exact comparison). Categories that carry the name of a quantity type (their own or another one's) are registered in every order next to categories of those types: every unit GetValidUnits names belongs to the category's type, and the call terminates. Non-trivial = history with a rejection, "
     "an override or a unit registered before its base; key = the history."
 )
 ASSUMPTIONS = [
@@ -227,7 +227,9 @@ def m_valid_units(m, cat):
     ci = m.cats[cat]
     if ci["vu"] is not None:
         return ci["vu"]
-    if ci["qt"] != cat and ci["qt"] in m.cats:
+    # the category named after the quantity type lends its valid units only when it is of that type
+    tc = m.cats.get(ci["qt"])
+    if ci["qt"] != cat and tc is not None and tc["qt"] == ci["qt"]:
         return m_valid_units(m, ci["qt"])
     return m.qt[ci["qt"]]
 
@@ -336,6 +338,10 @@ def observe(db, m):
             g = ("ok", list(db.GetValidUnits(c)))
         except UnitsError as e:
             g = ("raises", type(e).__name__)
+        except RecursionError:
+            return ("INV GetValidUnits does not terminate", c)
+        if g[0] == "ok" and ci["qt"] in m.qt and any(u not in m.qt[ci["qt"]] for u in g[1]):
+            return ("INV GetValidUnits names a unit outside the category's quantity type", c, g[1], ci["qt"])
         if g != ("ok", list(m_valid_units(m, c))):
             return ("valid_units", c, g, ("ok", list(m_valid_units(m, c))))
         if ci["qt"] not in m.qt:
@@ -594,6 +600,28 @@ def run_shard(spec, ctx):
                     flags = run_history(ctx, prefix + [e], rec)
                     total += 1
                     ctx.cls("histories_with_default_value_at_a_limit")
+        if spec["i"] == 0:
+            # categories that carry the name of a quantity type - their own, or another one's - in every order, with
+            # and without valid units of their own, and categories of those types next to them: valid units and
+            # verdicts follow the category's quantity type, never the name
+            named = []
+            for own_vu in (None, ["cm"], ["min"]):
+                for nm, qt in (("L", "L"), ("L", "T"), ("T", "L"), ("T", "T")):
+                    kw = {"quantity_type": qt}
+                    if own_vu is not None:
+                        if (own_vu == ["cm"]) != (qt == "L"):
+                            continue
+                        kw["valid_units"] = list(own_vu)
+                    named.append(["cat", nm, kw])
+            users = [["cat", "x", {"quantity_type": "L"}], ["cat", "y", {"quantity_type": "T"}], ["cat", "z", {"from_category": "L"}]]
+            pre = [OPS[0], OPS[1], OPS[3], OPS[4]]  # m, cm | s, min
+            import itertools as _it
+            for a, b in _it.permutations(named, 2):
+                for order in (0, 1, 2):
+                    seq = {0: [a, b] + users, 1: users[:2] + [a, b] + users[2:], 2: [a] + users + [b]}[order]
+                    run_history(ctx, pre + seq, rec)
+                    total += 1
+                    ctx.cls("histories_with_a_category_named_after_a_quantity_type")
         for L in range(1, depth + 1):
             run_all(L)
         ctx.exhaustive["registration histories over the %d-call alphabet" % nops] = "all of length <= %d" % depth
